@@ -41,6 +41,26 @@ pub struct ScriptReader {
     pub ended: bool,
 }
 
+thread_local! {
+    /// set when a reader is handed a buffer whose never-written part holds allocator poison (C17)
+    pub static SAW_POISON: std::cell::Cell<bool> = std::cell::Cell::new(false);
+    /// how far into the buffer this thread's current reader has written so far
+    static HIGH_WATER: std::cell::Cell<usize> = std::cell::Cell::new(0);
+}
+
+/// A `Read` implementation may look at the buffer it is given.  The part it has never written must be
+/// initialised memory; the probe's allocator poisons memory that was not requested zeroed, so a run of
+/// poison bytes there means the library handed out uninitialised memory.
+fn inspect_buffer(buf: &[u8], about_to_write: usize) {
+    let hw = HIGH_WATER.with(|h| h.get());
+    if buf.len() > hw {
+        let fresh = &buf[hw..];
+        let mut run = 0usize;
+        for &b in fresh { if b == crate::allocstream::POISON { run += 1; if run >= 64 { SAW_POISON.with(|c| c.set(true)); break; } } else { run = 0; } }
+    }
+    HIGH_WATER.with(|h| h.set(hw.max(about_to_write.min(buf.len()))));
+}
+
 impl Read for ScriptReader {
     fn read(&mut self, buf: &mut [u8]) -> std::io::Result<usize> {
         if self.pos >= self.script.len() {
@@ -49,6 +69,7 @@ impl Read for ScriptReader {
         }
         let ev = self.script[self.pos].clone();
         self.pos += 1;
+        inspect_buffer(buf, match &ev { Ev::Deliver(b) => b.len(), Ev::Pattern(_, l) => *l, _ => 0 });
         match ev {
             Ev::Deliver(b) => {
                 let n = b.len().min(buf.len());
@@ -96,6 +117,8 @@ pub fn emit_stream(out: &mut impl Write, vi: usize, script: &[Ev]) {
     let bin_len = variant_bin_len(vi);
     let sc = script.to_vec();
     with_variant!(vi, T => {
+        HIGH_WATER.with(|h| h.set(0));
+        SAW_POISON.with(|c| c.set(false));
         let r = guarded(move || {
             let mut rd = ScriptReader { script: sc, pos: 0, delivered: Vec::new(), hard_error: None, ended: false };
             let res = stream_result(tlsh::hash_stream_for::<T, _>(&mut rd), bin_len);
@@ -110,6 +133,9 @@ pub fn emit_stream(out: &mut impl Write, vi: usize, script: &[Ev]) {
         match r {
             Ok((res, expect)) => {
                 writeln!(out, "{} => {}", head, res).unwrap();
+                if SAW_POISON.with(|c| c.replace(false)) {
+                    writeln!(out, "ORACLE C17 reader-was-handed-uninitialised-memory {}", &head[..head.len().min(600)]).unwrap();
+                }
                 if res != expect {
                     let what = if script.iter().any(|e| matches!(e, Ev::Interrupted)) { "interrupted-read-not-retried" } else { "stream-differs-from-hash-buf" };
                     writeln!(out, "ORACLE C12 {} expected={} {}", what, &expect[..expect.len().min(90)], &head[..head.len().min(600)]).unwrap();
@@ -188,6 +214,42 @@ pub fn stream_file(out: &mut impl Write, seed: u64) {
             }
         });
         let _ = std::fs::remove_file(&path);
+    }
+    // files whose metadata say "0 bytes" although reading delivers data: a FIFO fed by a writer thread
+    // and a few stable procfs entries.  `hash_file` must hash what the reads deliver.
+    {
+        let fifo = dir.join("pipe.fifo");
+        let made = std::process::Command::new("mkfifo").arg(&fifo).status().map(|s| s.success()).unwrap_or(false);
+        if made {
+            for (k, size) in [300usize, 70_000, (1 << 20) + 5].iter().enumerate() {
+                let vi = [1usize, 0, 3][k];
+                let bin_len = variant_bin_len(vi);
+                let data = pattern(seed + 100 + k as u64, *size);
+                let d2 = data.clone();
+                let f2 = fifo.clone();
+                let w = std::thread::spawn(move || { if let Ok(mut f) = std::fs::OpenOptions::new().write(true).open(&f2) { use std::io::Write as _; let _ = f.write_all(&d2); } });
+                with_variant!(vi, T => {
+                    let res = match guarded(|| stream_result(tlsh::hash_file_for::<T, _>(&fifo), bin_len)) { Ok(s) => s, Err(()) => "panic".to_string() };
+                    let expect = buf_result(tlsh::hash_buf_for::<T>(&data), bin_len);
+                    writeln!(out, "file {} s:{}:{} => {}", vi, size, seed + 100 + k as u64, res).unwrap();
+                    if res != expect { writeln!(out, "ORACLE C12 hash-file-of-a-fifo-differs-from-hash-buf size={}", size).unwrap(); }
+                });
+                let _ = w.join();
+            }
+            let _ = std::fs::remove_file(&fifo);
+        }
+        for p in ["/proc/filesystems", "/proc/version", "/proc/cpuinfo"] {
+            let (a, b) = (std::fs::read(p), std::fs::read(p));
+            if let (Ok(a), Ok(b)) = (a, b) {
+                if a == b && a.len() >= 50 {
+                    let bin_len = variant_bin_len(1);
+                    let res = match guarded(|| stream_result(tlsh::hash_file(p), bin_len)) { Ok(s) => s, Err(()) => "panic".to_string() };
+                    let expect = buf_result(tlsh::hash_buf(&a), bin_len);
+                    // contents are machine-specific: only the direct oracle, no model line
+                    if res != expect { writeln!(out, "ORACLE C12 hash-file-of-a-procfs-entry-differs-from-hash-buf {} ({} bytes)", p, a.len()).unwrap(); }
+                }
+            }
+        }
     }
     for vi in 0..5 {
         let bin_len = variant_bin_len(vi);
